@@ -536,7 +536,9 @@ func (e *Env) Exec(op Op) (o Out) {
 		d, err := w.W.Commit(dg)
 		o.setErr(err)
 		o.Desc = liteDesc(d)
-		delete(e.Writers, op.W)
+		if err == nil {
+			delete(e.Writers, op.W)
+		}
 	case "upCancel":
 		w := e.Writers[op.W]
 		if w == nil {
@@ -544,7 +546,8 @@ func (e *Env) Exec(op Op) (o Out) {
 			return
 		}
 		o.setErr(w.W.Cancel())
-		delete(e.Writers, op.W)
+		// the slot is kept: a cancelled session can still be written to and resumed by id
+		// (its commit must fail)
 	case "upClose":
 		w := e.Writers[op.W]
 		if w == nil {
